@@ -335,6 +335,7 @@ def setup(ctx):
         for name in ('__add__', '__rmul__', '__iadd__', 'invariant', '_count_atoms'):
             ctx.require('contract.' + name, 1, 'this contract must have been evaluated')
         ctx.require('cases.private', 1, 'private-table share of the workload')
+        ctx.require('huge.forms', 1, 'whole-number multipliers with a product beyond 2**63')
         for name in ('mul.zero', 'mul.one', 'mul.numpy', 'iadd.aliased', 'leaf.dict', 'leaf.seq', 'leaf.str', 'leaf.atom', 'leaf.blank-string', 'copy.table-other'):
             ctx.require('prog.' + name, 1, 'workload feature demanded by the property quantifier')
 
@@ -601,7 +602,65 @@ def check_atom_sweep(ctx, case):
     ctx.distinct_case(('sweep', tname, Z))
 
 
-CHECKS = {'program': check_program, 'atom_sweep': check_atom_sweep}
+def check_huge(ctx, case):
+    """Whole-number multipliers on nested groups whose product passes 2**63 (Python ints, no numpy scalar anywhere):
+    the counts are the exact integer products, whichever way the formula is built."""
+    import random
+    from periodictable import formulas
+    from ..atoms import lookup, render
+    tname = case.get('table', 'public')
+    T = _s['tables'][tname]
+    _s['cur_scale'] = _s['scale'][tname]
+    ctx.count('cases.' + tname)
+    rng = random.Random(case['seed'])
+    keys = [tuple(k) for k in case['keys']]
+    inner = [int(c) for c in case['inner']]
+    mults = [int(m) for m in case['mults']]
+    extra, nextra = tuple(case['extra']), int(case['nextra'])
+    total = 1
+    for m in mults:
+        total *= m
+    want = {}
+    for k, c in zip(keys, inner):
+        want[k] = want.get(k, 0) + Fraction(c * total)
+    want[extra] = want.get(extra, 0) + Fraction(nextra)
+    text = ''.join(render(T, k, rng) + (str(c) if c != 1 else '') for k, c in zip(keys, inner))
+    for m in mults:
+        text = '(' + text + ')' + str(m)
+    text += render(T, extra, rng) + (str(nextra) if nextra != 1 else '')
+    seq = [(c, lookup(T, k)) for k, c in zip(keys, inner)]
+    for m in mults:
+        seq = [(m, seq)]
+    seq = seq + [(nextra, lookup(T, extra))]
+    builds = [('formula(%r)' % text, lambda: formulas.formula(text, table=T)),
+              ('formula(<nested (count, fragment) sequence>)', lambda: formulas.formula(seq))]
+
+    def by_arithmetic():
+        f = formulas.formula([(c, lookup(T, k)) for k, c in zip(keys, inner)])
+        for m in mults:
+            f = m * f
+        return f + formulas.formula([(nextra, lookup(T, extra))])
+    builds.append(('%s*formula(...) + ...' % '*'.join(str(m) for m in reversed(mults)), by_arithmetic))
+    for label, build in builds:
+        ctx.count('huge.forms')
+        try:
+            f = build()
+            problems = _compare(ctx, f, want, label)
+            if not problems:
+                from ..atoms import key as akey
+                for a, c in f.atoms.items():
+                    w = want[akey(a)]
+                    if isinstance(c, int) and c != w:
+                        problems.append('%s: count of %r is the integer %d, the product of the multipliers gives %d'
+                                        % (label, a, c, w))
+        except ContractBroken as exc:
+            problems = ['%s: contract violated inside the library: %s' % (label, _contract_text(exc))]
+        if problems:
+            ctx.violation(problems[0], product=str(total), mults=[str(m) for m in mults], problems=problems[:3])
+    ctx.distinct_case(('huge', len(mults), len(str(total))))
+
+
+CHECKS = {'program': check_program, 'atom_sweep': check_atom_sweep, 'huge': check_huge}
 
 
 # ---------------------------------------------------------------- workload
@@ -618,11 +677,35 @@ def generate(ctx):
                 n = rng.choice([['i', 2], ['i', 3], ['f', 0.5], ['f', 10 ** rng.uniform(-6, 6)], ['ni64', 7], ['nf64', 2.5], ['i', 0]])
                 yield 'atom_sweep', {'Z': Z, 'table': tname, 'n': n}
             i += 1
+    # whole-number multipliers whose product passes 2**63 (and 2**64, 1e21, 1e30)
+    for _ in range(ctx.scale(12, 60)):
+        nm = rng.choice([1, 2, 2, 3, 3, 4])
+        target = 10 ** rng.uniform(18.5, 31)
+        mults = [max(2, int(round(target ** (1.0 / nm) * rng.uniform(0.5, 2)))) for _ in range(nm)]
+        if rng.random() < 0.4:
+            mults = [10 ** len(str(m)) for m in mults]
+        tname = rng.choice(['public', 'public', 'private', 'private_scaled'])
+        pool = gens_pool(rng, _s['tables'][tname])
+        yield 'huge', {'table': tname, 'keys': [list(k) for k in pool[:-1]], 'inner': [rng.choice([1, 2, 3, 4]) for _ in pool[:-1]],
+                       'mults': [str(m) for m in mults], 'extra': list(pool[-1]), 'nextra': rng.choice([1, 2, 5]),
+                       'seed': rng.randrange(1 << 30)}
     gens = dict((t, ProgramGen(T, rng)) for t, T in _s['tables'].items())
     for _ in range(ctx.scale(400, 15000)):
         r = rng.random()
         tname = 'private' if r < 0.1 else ('private_scaled' if r < 0.2 else 'public')
         yield 'program', {'table': tname, 'prog': dumps(gens[tname].program())}
+
+
+def gens_pool(rng, T):
+    """2-4 distinct atom keys of table T (neutral elements and isotopes, some ions)."""
+    from ..gen.programs import ProgramGen
+    g = ProgramGen(T, rng)
+    pool = []
+    while len(pool) < rng.randint(2, 4):
+        k = tuple(g.random_key())
+        if k not in pool and k[0] > 0:
+            pool.append(k)
+    return pool
 
 
 def classify(rec):
